@@ -4,6 +4,8 @@ import F3.Proofs.BridgeEx
 import F3.Proofs.ParticipantBridge
 import F3.Proofs.RestartEx
 import F3.Proofs.MultiParticipantNet
+import F3.Proofs.NoFailureBridge
+import F3.Proofs.NoFailureBridgeP
 /-!
 # C01 — Agreement
 
@@ -481,5 +483,76 @@ theorem agreement_consecutive_instances_nonvacuous :
     decide
 
 end ConsecutiveInstances
+
+/-! ## Agreement of the executable model without any assumption on reported errors
+
+`agreement_model` asks of every honest run that no call reported an error other than a refusal at the door
+(`HonestRun.ok`). By `F3.Props.C07.no_internal_error_or_panic` this is a theorem about the model for every run of one
+`Start` followed by alarms and validated (or foreign) deliveries, so the field can be dropped. -/
+section NoFailureCorollaries
+open F3.Instance F3.Bridge
+
+/-- **`okRun` holds of every validated run** (the statement of `F3.Props.C07.no_internal_error_or_panic` in the
+vocabulary of the bridge): after the one `Start`, every alarm and every delivery of a validated message — or of a
+message of another instance / with other supplemental data — either is refused at the door or reports no failure. -/
+theorem no_internal_error_or_panic_okRun (cfg : Cfg) (t : Table) (input : Chain) (W : Instance.Votes) (now0 : Int)
+    (ops : List Op) (hin : input ≠ []) (hT : 0 < t.total)
+    (hstart : ∀ op ∈ ops, op.isStart = false)
+    (hvalid : ∀ op ∈ ops, foreign op = true ∨ OpValidG W t op) :
+    okRun (init cfg t input) (.start now0 :: ops) = true :=
+  okRun_of_valid cfg t input W now0 ops hin hT hstart hvalid
+
+/-- **Agreement, end to end for the model of the code, with no hypothesis on errors.** `N : NetworkV t F W`: power
+table with distinct ids and positive total; Byzantine set `F` with less than a third of the power; `W` the validly
+signed votes in existence; every honest committee member ran `Instance.step` from `init` on `Start` followed by an
+arbitrary list of alarms and deliveries in which every delivered message of this instance is valid (`MsgValid`), and
+has exactly its own broadcasts as its votes in `W`. Then any two honest members that report a decision report the
+same value. -/
+theorem agreement_model_unconditional {t : Table} {F : Finset Pid} {W : Instance.Votes} (N : NetworkV t F W)
+    (p q : Pid) (hp : p ∈ (ids t).toFinset) (hpF : p ∉ F) (hq : q ∈ (ids t).toFinset) (hqF : q ∉ F) (dp dq : Just)
+    (hdp : (run (init (N.runs p hp hpF).cfg t (N.runs p hp hpF).input)
+      (.start (N.runs p hp hpF).start :: (N.runs p hp hpF).ops)).1.termination = some dp)
+    (hdq : (run (init (N.runs q hq hqF).cfg t (N.runs q hq hqF).input)
+      (.start (N.runs q hq hqF).start :: (N.runs q hq hqF).ops)).1.termination = some dq) :
+    dp.value = dq.value :=
+  agreement_model N.toNetwork p q hp hpF hq hqF dp dq hdp hdq
+
+/-- The honest rules of Layer A hold of every such network of model runs. -/
+theorem model_satisfies_rules_unconditional {t : Table} {F : Finset Pid} {W : Instance.Votes} (N : NetworkV t F W) :
+    (world t F W).Rules := N.toNetwork.rules
+
+/-- Non-vacuity: the four-member network of `agreement_model_nonvacuous` (member 4 Byzantine and equivocating, one
+delivery refused for its supplemental data) is a `NetworkV`, and honest member 1 decides `[7, 8]` in it. -/
+theorem agreement_model_unconditional_nonvacuous :
+    Nonempty (NetworkV exTbl exF exW) ∧ exW 4 0 .prepare [7, 9] ∧ exW 4 0 .prepare [7, 8] ∧
+    ∃ d, (run (init (exNetV.runs 1 (by decide) (by decide)).cfg exTbl (exNetV.runs 1 (by decide) (by decide)).input)
+      (.start (exNetV.runs 1 (by decide) (by decide)).start :: (exNetV.runs 1 (by decide) (by decide)).ops)).1.termination
+        = some d ∧ d.value = [7, 8] :=
+  ⟨⟨exNetV⟩, ex_network_decides.1, ex_network_decides.2.1, ex_networkV_decides⟩
+
+/-- **Agreement at the participant API, with no hypothesis on errors.** As `agreement_model_participant`, but the
+honest members' executions are `ValidRunP`s: any sequence of `ReceiveMessage` / `ReceiveAlarm` calls and any drain
+order, every delivered message being of this instance and validated unless its supplemental data differ
+(`PMsgOK`); that no call reports an error other than a refusal (`okRunP`) is
+`F3.Props.C07.no_internal_error_or_panic_participant`. -/
+theorem agreement_model_participant_unconditional {t : Table} {F : Finset Pid} {W : Instance.Votes}
+    (N : NetworkVP t F W)
+    (p q : Pid) (hp : p ∈ (ids t).toFinset) (hpF : p ∉ F) (hq : q ∈ (ids t).toFinset) (hqF : q ∉ F) (dp dq : Just)
+    (hdp : (prun (N.runs p hp hpF).order (pinit (N.runs p hp hpF).cfg t (N.runs p hp hpF).input)
+      (N.runs p hp hpF).ops).1.inst.termination = some dp)
+    (hdq : (prun (N.runs q hq hqF).order (pinit (N.runs q hq hqF).cfg t (N.runs q hq hqF).input)
+      (N.runs q hq hqF).ops).1.inst.termination = some dq) :
+    dp.value = dq.value :=
+  agreement_model_participant N.toNetworkP p q hp hpF hq hqF dp dq hdp hdq
+
+/-- Non-vacuity: the participant-level example network is a `NetworkVP` in which honest member 1 decides `[7, 8]`. -/
+theorem agreement_model_participant_unconditional_nonvacuous :
+    Nonempty (NetworkVP exTbl exF exW) ∧ exW 4 0 .prepare [7, 9] ∧ exW 4 0 .prepare [7, 8] ∧
+    ∃ d, (prun (exNetVP.runs 1 (by decide) (by decide)).order
+        (pinit (exNetVP.runs 1 (by decide) (by decide)).cfg exTbl (exNetVP.runs 1 (by decide) (by decide)).input)
+        (exNetVP.runs 1 (by decide) (by decide)).ops).1.inst.termination = some d ∧ d.value = [7, 8] :=
+  ⟨⟨exNetVP⟩, ex_network_decides.1, ex_network_decides.2.1, ex_networkVP_decides⟩
+
+end NoFailureCorollaries
 
 end F3.Props.C01
